@@ -217,7 +217,13 @@ func (r *TimeRange) IsInSameRange(t1, t2 time.Time) bool {
 
 	// Build the end directly on its own calendar day: going through EndTime on t1's day first is
 	// wrong when that wall-clock time does not exist there (daylight-saving gap).
-	sessionEnd := time.Date(t1.Year(), t1.Month(), t1.Day()+dayOffset, r.endTime.hour, r.endTime.minute, r.endTime.second, 0, r.loc)
+	//
+	// The comparison is made on wall-clock readings, the way IsInRange classifies instants: where the zone's
+	// clocks are set back or forward, EndTime names two instants or none, and an instant that IsInRange
+	// counts as inside the window must not fall behind whichever of them time.Date happens to pick.
+	sessionEnd := time.Date(t1.Year(), t1.Month(), t1.Day()+dayOffset, r.endTime.hour, r.endTime.minute, r.endTime.second, 0, time.UTC)
+	t2 = t2.In(r.loc)
+	t2Reading := time.Date(t2.Year(), t2.Month(), t2.Day(), t2.Hour(), t2.Minute(), t2.Second(), t2.Nanosecond(), time.UTC)
 
-	return t2.Before(sessionEnd)
+	return t2Reading.Before(sessionEnd)
 }
